@@ -1,0 +1,235 @@
+// Verification hooks. Compiled only with `--cfg dandavison_delta_verif`; inert unless the
+// environment variable DELTA_VERIF (driver / scenario modes) or DELTA_VERIF_SCHEDULE
+// (ordering points) is set. Nothing here is reachable in a normal build.
+#![allow(dead_code)]
+
+use std::io::{BufRead, Write};
+
+/// Ordering points for the calling-process protocol (src/utils/process.rs).
+///
+/// DELTA_VERIF_SCHEDULE is a comma separated list of point names, optionally suffixed with
+/// `@<ms>` (sleep that many milliseconds after the point has been released). A thread that
+/// reaches `point(name)` blocks until every entry before the first not-yet-consumed
+/// occurrence of `name` has been consumed. A point that is not in the (remaining) schedule
+/// is free. A point that waits longer than DELTA_VERIF_SCHEDULE_TIMEOUT_MS (default 1500)
+/// gives up, records `TIMEOUT <name>` and makes all later points free.
+/// Every passage is appended to the file named by DELTA_VERIF_TRACE.
+pub mod sched {
+    use std::io::Write;
+    use std::sync::atomic::{AtomicUsize, Ordering};
+    use std::sync::{Condvar, Mutex};
+    use std::time::{Duration, Instant};
+
+    struct State {
+        entries: Vec<(String, u64)>,
+        idx: usize,
+        broken: bool,
+    }
+
+    lazy_static::lazy_static! {
+        static ref STATE: (Mutex<Option<State>>, Condvar) = (Mutex::new(load()), Condvar::new());
+    }
+    static QUERY_COUNTER: AtomicUsize = AtomicUsize::new(0);
+
+    fn load() -> Option<State> {
+        let spec = std::env::var("DELTA_VERIF_SCHEDULE").ok()?;
+        let entries = spec
+            .split(',')
+            .filter(|s| !s.is_empty())
+            .map(|s| match s.split_once('@') {
+                Some((name, ms)) => (name.to_string(), ms.parse().unwrap_or(0)),
+                None => (s.to_string(), 0),
+            })
+            .collect();
+        Some(State {
+            entries,
+            idx: 0,
+            broken: false,
+        })
+    }
+
+    pub fn trace(line: &str) {
+        if let Ok(path) = std::env::var("DELTA_VERIF_TRACE") {
+            if let Ok(mut f) = std::fs::OpenOptions::new()
+                .create(true)
+                .append(true)
+                .open(path)
+            {
+                let _ = writeln!(f, "{line}");
+            }
+        }
+    }
+
+    pub fn next_query_number() -> usize {
+        QUERY_COUNTER.fetch_add(1, Ordering::SeqCst) + 1
+    }
+
+    pub fn active() -> bool {
+        std::env::var_os("DELTA_VERIF_SCHEDULE").is_some()
+    }
+
+    pub fn point(name: &str) {
+        if !active() {
+            return;
+        }
+        let timeout_ms: u64 = std::env::var("DELTA_VERIF_SCHEDULE_TIMEOUT_MS")
+            .ok()
+            .and_then(|s| s.parse().ok())
+            .unwrap_or(1500);
+        let (mutex, cond) = &*STATE;
+        let mut guard = mutex.lock().unwrap();
+        let deadline = Instant::now() + Duration::from_millis(timeout_ms);
+        let mut sleep_ms = 0;
+        loop {
+            let st = match guard.as_mut() {
+                Some(st) => st,
+                None => break,
+            };
+            if st.broken {
+                trace(&format!("FREE {name}"));
+                break;
+            }
+            let pos = st.entries[st.idx..].iter().position(|(n, _)| n == name);
+            match pos {
+                None => {
+                    trace(&format!("FREE {name}"));
+                    break;
+                }
+                Some(0) => {
+                    sleep_ms = st.entries[st.idx].1;
+                    st.idx += 1;
+                    trace(&format!("POINT {name}"));
+                    cond.notify_all();
+                    break;
+                }
+                Some(_) => {
+                    let now = Instant::now();
+                    if now >= deadline {
+                        st.broken = true;
+                        trace(&format!("TIMEOUT {name}"));
+                        cond.notify_all();
+                        break;
+                    }
+                    let (g, _) = cond.wait_timeout(guard, deadline - now).unwrap();
+                    guard = g;
+                }
+            }
+        }
+        drop(guard);
+        if sleep_ms > 0 {
+            std::thread::sleep(Duration::from_millis(sleep_ms));
+        }
+    }
+}
+
+pub fn hex_encode(bytes: &[u8]) -> String {
+    let mut s = String::with_capacity(bytes.len() * 2);
+    for b in bytes {
+        s.push_str(&format!("{b:02x}"));
+    }
+    s
+}
+
+pub fn hex_decode(s: &str) -> Vec<u8> {
+    let b = s.as_bytes();
+    let mut out = Vec::with_capacity(b.len() / 2);
+    let mut i = 0;
+    while i + 1 < b.len() {
+        let h = (b[i] as char).to_digit(16).unwrap_or(0) as u8;
+        let l = (b[i + 1] as char).to_digit(16).unwrap_or(0) as u8;
+        out.push(h * 16 + l);
+        i += 2;
+    }
+    out
+}
+
+pub fn hex_str(s: &str) -> String {
+    String::from_utf8_lossy(&hex_decode(s)).to_string()
+}
+
+/// Scenario `DELTA_VERIF=proc:<n>[:<subcommand words separated by spaces>]`:
+/// replays what `main` does with the calling-process protocol — start the background
+/// determination, optionally publish a known command, then query n times — with the
+/// ordering points active, and prints each query result.
+fn proc_scenario(spec: &str) -> i32 {
+    let mut parts = spec.splitn(2, ':');
+    let n: usize = parts.next().unwrap_or("1").parse().unwrap_or(1);
+    let publish: Vec<String> = parts
+        .next()
+        .map(|s| s.split(' ').filter(|w| !w.is_empty()).map(String::from).collect())
+        .unwrap_or_default();
+    crate::utils::process::start_determining_calling_process_in_thread();
+    if !publish.is_empty() {
+        crate::utils::process::set_calling_process(&publish);
+    }
+    let stdout = std::io::stdout();
+    for i in 1..=n {
+        let shown = {
+            let guard = crate::utils::process::calling_process();
+            let s = format!("{:?}", &*guard);
+            s.split(|c| c == '(' || c == ' ').next().unwrap_or("").to_string()
+        };
+        sched::trace(&format!("RESULT query{i} {shown}"));
+        sched::point(&format!("query{i}:returned"));
+        let _ = writeln!(stdout.lock(), "query{i}={shown}");
+    }
+    // let the background thread pass its remaining points before the process exits
+    sched::point("main:end");
+    0
+}
+
+/// Line-protocol driver: each request line is `op<TAB>arg<TAB>arg...` (string arguments
+/// hex encoded); each reply is exactly one line `OK<TAB>...` or `PANIC<TAB>message`.
+fn driver() -> i32 {
+    std::panic::set_hook(Box::new(|_| {}));
+    let stdin = std::io::stdin();
+    let stdout = std::io::stdout();
+    for line in stdin.lock().lines() {
+        let line = match line {
+            Ok(l) => l,
+            Err(_) => break,
+        };
+        let fields: Vec<String> = line.split('\t').map(String::from).collect();
+        let result = std::panic::catch_unwind(|| ops::run(&fields));
+        let reply = match result {
+            Ok(s) => format!("OK\t{s}"),
+            Err(e) => {
+                let msg = if let Some(s) = e.downcast_ref::<&str>() {
+                    s.to_string()
+                } else if let Some(s) = e.downcast_ref::<String>() {
+                    s.clone()
+                } else {
+                    "?".to_string()
+                };
+                format!("PANIC\t{}", msg.replace(['\n', '\t'], " "))
+            }
+        };
+        let mut out = stdout.lock();
+        if writeln!(out, "{reply}").is_err() {
+            break;
+        }
+        let _ = out.flush();
+    }
+    0
+}
+
+/// Returns Some(exit code) when a verification mode handled the invocation.
+pub fn dispatch() -> Option<i32> {
+    let mode = std::env::var("DELTA_VERIF").ok()?;
+    if mode == "driver" {
+        Some(driver())
+    } else if let Some(spec) = mode.strip_prefix("proc:") {
+        Some(proc_scenario(spec))
+    } else {
+        None
+    }
+}
+
+pub mod ops {
+    pub fn run(fields: &[String]) -> String {
+        match fields[0].as_str() {
+            "ping" => "pong".to_string(),
+            op => format!("UNKNOWN-OP {op}"),
+        }
+    }
+}
